@@ -62,57 +62,99 @@ func errorResultCell(fn *ssa.Function) *ssa.Alloc {
 	return nil
 }
 
-// closureCloses analyses a function literal: which of its free variables /
-// parameters it calls Close on, and whether that is guarded by `*rerr != nil`.
+// closeEffects analyses a function (a deferred literal, a close helper): which
+// of its free variables / parameters it calls Close on – directly or through a
+// same-package helper it hands them to – whether that is guarded by "the
+// function's error result is non-nil", and whether it closes every element
+// of a slice.
 type closeEffect struct {
 	FreeVar int // index, -1 if none
 	Param   int // index, -1 if none
 	OnError bool
-	Loop    bool // closes every element of a slice
+	Loop    bool            // closes the elements of a slice
+	LoopFn  *ssa.Function   // function holding the loop
+	Call    ssa.CallInstruction
 }
 
-func closureCloseEffects(fn *ssa.Function, errCellBinding func(fv *ssa.FreeVar) bool) []closeEffect {
+// errRef reports whether a pointer value (free variable or parameter of fn)
+// denotes the error result cell of the function whose cleanup this is.
+func closeEffects(fn *ssa.Function, errRef func(v ssa.Value) bool, depth int) []closeEffect {
 	var out []closeEffect
-	for _, c := range callsIn(fn) {
-		recv, ok := methodCallNamed(c, "Close")
-		if !ok {
-			continue
-		}
-		eff := closeEffect{FreeVar: -1, Param: -1}
-		// guard
-		for _, f := range factsAt(c.Block()) {
+	if fn == nil || fn.Blocks == nil || depth > 2 {
+		return nil
+	}
+	guardedOnErr := func(b *ssa.BasicBlock) bool {
+		for _, f := range factsAt(b) {
 			if x, nn, ok := nilCheck(f.Cond); ok && nn == f.Truth {
-				if lu, ok := x.(*ssa.UnOp); ok {
-					if fv, ok := lu.X.(*ssa.FreeVar); ok && errCellBinding(fv) {
-						eff.OnError = true
-					}
+				if lu, ok := x.(*ssa.UnOp); ok && lu.Op == token.MUL && errRef != nil && errRef(lu.X) {
+					return true
 				}
 			}
 		}
-		root := resRoot(recv)
-		// element of a ranged slice?
+		return false
+	}
+	target := func(v ssa.Value) (fvIdx, prmIdx int, loop bool) {
+		fvIdx, prmIdx = -1, -1
+		root := resRoot(v)
 		if lu, ok := root.(*ssa.UnOp); ok && lu.Op == token.MUL {
 			if ia, ok := lu.X.(*ssa.IndexAddr); ok {
-				eff.Loop = true
+				loop = true
 				root = ia.X
 			}
 		}
 		if lu, ok := root.(*ssa.UnOp); ok && lu.Op == token.MUL {
-			if fv, ok := lu.X.(*ssa.FreeVar); ok {
-				for i, f := range fn.FreeVars {
-					if f == fv {
-						eff.FreeVar = i
-					}
-				}
+			root = lu.X
+		}
+		for i, f := range fn.FreeVars {
+			if root == ssa.Value(f) {
+				fvIdx = i
 			}
 		}
 		for i, prm := range fn.Params {
 			if root == ssa.Value(prm) {
-				eff.Param = i
+				prmIdx = i
 			}
 		}
-		if eff.FreeVar >= 0 || eff.Param >= 0 {
-			out = append(out, eff)
+		return
+	}
+	for _, c := range callsIn(fn) {
+		if recv, ok := methodCallNamed(c, "Close"); ok {
+			fv, prm, loop := target(recv)
+			if fv >= 0 || prm >= 0 {
+				out = append(out, closeEffect{FreeVar: fv, Param: prm, OnError: guardedOnErr(c.Block()), Loop: loop, LoopFn: fn, Call: c})
+			}
+			continue
+		}
+		callee := staticCallee(c)
+		if callee == nil || callee.Blocks == nil || callee == fn {
+			continue
+		}
+		pk := callee.Pkg
+		if pk == nil || !isFirstParty(pk.Pkg.Path()) {
+			continue
+		}
+		args := c.Common().Args
+		sub := closeEffects(callee, func(v ssa.Value) bool {
+			// a parameter of the helper is the error cell if the argument is
+			for i, prm := range callee.Params {
+				if v == ssa.Value(prm) && i < len(args) {
+					a := args[i]
+					if errRef != nil && errRef(a) {
+						return true
+					}
+				}
+			}
+			return false
+		}, depth+1)
+		for _, se := range sub {
+			if se.Param < 0 || se.Param >= len(args) {
+				continue
+			}
+			fv, prm, loop := target(args[se.Param])
+			if fv < 0 && prm < 0 {
+				continue
+			}
+			out = append(out, closeEffect{FreeVar: fv, Param: prm, OnError: se.OnError || guardedOnErr(c.Block()), Loop: se.Loop || loop, LoopFn: se.LoopFn, Call: se.Call})
 		}
 	}
 	return out
@@ -364,7 +406,22 @@ func ownDisposition(r *Run, fn *ssa.Function, e *feEnd, acq *ssa.Call, R ssa.Val
 			if body == nil {
 				continue
 			}
-			for _, eff := range closureCloseEffects(body, isErrCellFV(body, mc)) {
+			errRef := func(v ssa.Value) bool {
+				switch x := v.(type) {
+				case *ssa.FreeVar:
+					return isErrCellFV(body, mc)(x)
+				case *ssa.Parameter:
+					for i, prm := range body.Params {
+						if prm == x && i < len(cc.Args) && errCell != nil && cc.Args[i] == ssa.Value(errCell) {
+							return true
+						}
+					}
+				case *ssa.Alloc:
+					return errCell != nil && x == errCell
+				}
+				return false
+			}
+			for _, eff := range closeEffects(body, errRef, 0) {
 				hit := false
 				if eff.Param >= 0 && eff.Param < len(c.Args) && same(c.Args[eff.Param].V) {
 					hit = true
